@@ -280,6 +280,21 @@ static void build_catalogue (void)
 			if (ro != 0) { for (q = 0; q < k && q < 3; q++) add (s, S_DWS, (uint64_t) (n - 1 - q)); add (s, S_QUERY, 0); }
 			add (s, S_RELEASE, 0);
 		}
+		{	/* the same for LDPC-Staircase: shapes sharing n-k, k, or everything but the parity of N1 */
+			static const int lsh[4][4] = {{3, 4, 3, 1}, {3, 4, 4, 1}, {5, 4, 3, 2}, {3, 6, 3, 1}};
+			static char lnames[16][48];
+			int li = 0;
+			for (pi = 0; pi < 4; pi++) for (ro = 0; ro < 3; ro++) {
+				int k = lsh[pi][0], r = lsh[pi][1], n = k + r;
+				snprintf (lnames[li], sizeof lnames[li], "ldpc-%s-k%d-r%d-N1%d", ro == 0 ? "enc" : ro == 1 ? "dec" : "encdec", k, r, lsh[pi][2]);
+				s = new_script (lnames[li], 3, ro == 0 ? OF_ENCODER : ro == 1 ? OF_DECODER : OF_ENCODER_AND_DECODER, k, r, 6, 0, lsh[pi][2], lsh[pi][3], 0); li++;
+				add (s, S_CREATE, 0); add (s, S_SET, 0);
+				if (ro != 1) add (s, S_BUILDALL, 0);
+				if (ro == 0) add (s, S_CTRL, 0);
+				if (ro != 0) { add (s, S_DWS, (uint64_t) (n - 1)); add (s, S_DWS, (uint64_t) (n - 2)); add (s, S_DWS, (uint64_t) k); add (s, S_FIN, 0); add (s, S_QUERY, 0); }
+				add (s, S_RELEASE, 0);
+			}
+		}
 	}
 }
 
